@@ -123,7 +123,8 @@ func drawMerkleOps(t *sim.Tape) []merkleOp {
 			op.start = uint64(t.Choose(rhp4.LeavesPerSector))
 		case 3:
 			op.kind = "sector-roots"
-			op.n = pick(t, t.Range(1, 33), t.Range(1, 33), t.Range(1, 300), t.Range(300, 5000), 1<<uint(t.Range(0, 12)))
+			op.n = pick(t, t.Range(1, 33), t.Range(1, 33), t.Range(1, 300), t.Range(300, 5000), 1<<uint(t.Range(0, 12)), t.Range(1, 33),
+				pick(t, 65535, 65536, 65537, 65542, t.Range(65537, 70100))) // more roots than a sector has leaves
 			op.start = uint64(t.Choose(op.n))
 			op.end = op.start + uint64(t.Range(1, op.n-int(op.start)))
 			if t.Chance(1, 3) {
@@ -188,6 +189,7 @@ func runMerkle(s *Session, ops []merkleOp) {
 	// what the host sends for each op is computed before the tasks start, so
 	// the renter can tell an in-flight change from a builder fault
 	payload := make([][]byte, len(ops))
+	prebad := make([]string, len(ops))
 	cat := func(parts ...[]types.Hash256) []byte {
 		var buf []byte
 		for _, hs := range parts {
@@ -211,7 +213,12 @@ func runMerkle(s *Session, ops []merkleOp) {
 			payload[i] = append(append([]byte(nil), sec[op.start*64:op.start*64+64]...), cat(proof)...)
 		case "sector-roots":
 			roots := hashes(op.n, op.sectorSeed)
-			payload[i] = cat(roots[op.start:op.end], rhp4.BuildSectorRootsProof(roots, op.start, op.end))
+			proof := rhp4.BuildSectorRootsProof(roots, op.start, op.end)
+			if want := refRangeProof(roots, op.start, op.end); fmt.Sprint(proof) != fmt.Sprint(want) {
+				// (the renter would read the wrong number of hashes: reported where it is built)
+				prebad[i] = fmt.Sprintf("BuildSectorRootsProof(n=%d,[%d,%d)) has %d hashes and differs from the range proof by definition (%d hashes)", op.n, op.start, op.end, len(proof), len(want))
+			}
+			payload[i] = cat(roots[op.start:op.end], proof)
 		case "append":
 			sub, newRoot := rhp4.BuildAppendProof(hashes(op.n, op.sectorSeed), hashes(op.appended, op.sectorSeed+100))
 			payload[i] = cat(sub, []types.Hash256{newRoot})
@@ -227,6 +234,10 @@ func runMerkle(s *Session, ops []merkleOp) {
 		defer close(e.done)
 		defer c.Close()
 		for i, op := range ops {
+			if prebad[i] != "" {
+				e.violate("C16", "roots-proof-differs", prebad[i])
+				return
+			}
 			if len(payload[i]) > 0 {
 				if _, err := c.Write(payload[i]); err != nil {
 					e.logf("op %d %s: write failed", i, op.kind)
@@ -476,7 +487,7 @@ func runMerkle(s *Session, ops []merkleOp) {
 				if rhp4.VerifyAppendSectorsProof(uint64(op.n), sub, flipHash(app, cs[2]), oldRoot, newRoot) {
 					bad("append-proof-unsound", "append proof (%d+%d) accepted with a corrupted appended root", op.n, op.appended)
 				}
-				if op.n > 0 && rhp4.VerifyAppendSectorsProof(uint64(op.n), sub, app, flipHash([]types.Hash256{oldRoot}, cs[3])[0], newRoot) {
+				if rhp4.VerifyAppendSectorsProof(uint64(op.n), sub, app, flipHash([]types.Hash256{oldRoot}, cs[3])[0], newRoot) {
 					bad("append-proof-unsound", "append proof (%d+%d) accepted with a corrupted old root", op.n, op.appended)
 				}
 				if rhp4.VerifyAppendSectorsProof(uint64(op.n), sub, app, oldRoot, flipHash([]types.Hash256{newRoot}, cs[4])[0]) {
